@@ -217,7 +217,7 @@ func init() {
 		},
 		Floors: func(string) map[string]int64 {
 			return map[string]int64{"hash_checks": 50000, "pops": 1000, "pop_castle": 5, "pop_ep": 1, "pop_promotion": 5, "sens_piece": 1000, "sens_castle": 100, "sens_ep": 20, "sens_side": 100,
-				"mv_castle": 20, "mv_ep": 5, "mv_promo": 20, "mv_cappromo": 5, "mv_rights_lost_by_capture": 5, "starts_with_unbacked_right": 20}
+				"mv_castle": 20, "mv_ep": 5, "mv_promo": 20, "mv_cappromo": 5, "mv_rights_lost_by_capture": 5, "starts_with_unbacked_right": 20, "mv_king_takes_home_rook_with_right": 3}
 		},
 		Run: func(c *fw.Ctx, cs fw.Case) {
 			r := cs.Rand()
@@ -227,7 +227,7 @@ func init() {
 			case "games":
 				gm := newGameMon(c, gameFlags{hash: true})
 				for i := 0; i < cs.N; i++ {
-					start, bias, plies := gameStart(r, i+3)
+					start, bias, plies := gameStart(r, i/2) // (odd i: all ten kinds in turn)
 					if i%2 == 0 {
 						start, bias = gen.Starts()[r.Intn(len(gen.StartFENs))], gen.Biases[i%len(gen.Biases)]
 						if i%4 == 0 {
@@ -247,6 +247,20 @@ func init() {
 					o := gameOpts{plies: plies, bias: bias, popProb: 0.15, forkProb: 0.02, maxTracks: 3}
 					gm.runGame(r, zt, start, o)
 					for _, t := range gm.tracks {
+						pp := t.g.Start
+						for _, m := range t.g.Moves {
+							if m.Piece == ref.King && m.Capture == ref.Rook {
+								for _, cr := range []struct {
+									sq   int
+									flag uint8
+								}{{0, ref.CastleWQ}, {7, ref.CastleWK}, {56, ref.CastleBQ}, {63, ref.CastleBK}} {
+									if m.To == cr.sq && pp.Cast&cr.flag != 0 {
+										c.Count("mv_king_takes_home_rook_with_right", 1)
+									}
+								}
+							}
+							pp = pp.Apply(m)
+						}
 						for _, m := range t.g.Moves {
 							switch m.Kind {
 							case ref.KCastleK, ref.KCastleQ:
